@@ -66,30 +66,43 @@ func same(s, _ string) string { return s }
 //
 //   - css:  NUL cannot be written in CSS: both a raw NUL and the escape \0 mean U+FFFD
 //     (CSS Syntax 3 §3.3 and §4.3.7). expected = s with NUL replaced by U+FFFD.
-//   - json (encoding/json decoder only): JSON text is Unicode; encoding/json decodes every
-//     byte that is not part of a valid UTF-8 sequence (this includes encoded surrogates)
-//     as U+FFFD. expected = s with each such byte replaced by U+FFFD.
+//   - js / json string contexts (every decoder): JavaScript and JSON text is a sequence of
+//     Unicode code points; a byte that is not part of a valid UTF-8 sequence (this includes
+//     encoded surrogates) is not a code point and cannot be carried. expected = s with each
+//     such byte replaced by one U+FFFD (the rule of encoding/json); valid UTF-8 is byte-exact;
+//     the rendered output must be valid UTF-8.
 //   - html (tokenizer cross-check only; the deciding decoder is HTML entity decoding, which
 //     has no exemption): the HTML input stream normalises CR LF and CR to LF before
 //     tokenization, and NUL is dropped or replaced by the tree builder; the x/net/html
 //     cross-check therefore compares modulo newline normalisation and is skipped for
 //     values containing NUL.
 //
-// Invalid UTF-8 in the other contexts is copied through by scriggo and by the byte
+// Invalid UTF-8 in the HTML, CSS and URL contexts is copied through (HTML, CSS) or
+// percent-encoded byte by byte (URL) by scriggo and comes back byte for byte through the byte
 // transparent decoders, so no exemption is needed there.
 var exemptions = []string{
 	"css: NUL -> U+FFFD (CSS cannot represent NUL: Syntax 3 §3.3/§4.3.7)",
-	"json/encoding-json: every byte not part of valid UTF-8 (incl. encoded surrogates) -> U+FFFD (JSON text is Unicode)",
+	"js/json string contexts (.js, .json, <script>, JSON-LD), every decoder: each byte that is not part of a valid UTF-8 sequence (incl. encoded surrogates) -> one U+FFFD, the rule of encoding/json: JavaScript and JSON text consists of code points, a stray byte is not one; valid UTF-8 must be byte-exact and the rendered output must be valid UTF-8",
 	"html/x-net-html cross-check: compared modulo CR LF|CR -> LF (input-stream preprocessing, not entity decoding) and skipped when the value contains NUL; html.UnescapeString check has no exemption",
 }
 
 func expectCSS(s, _ string) string { return strings.ReplaceAll(s, "\x00", "\ufffd") }
 
-func expectJSON(s, which string) string {
-	if which == "encoding/json" && !utf8.ValidString(s) {
+// expectJS is the expectation of the JavaScript and JSON string contexts: JavaScript and JSON
+// source text is a sequence of Unicode code points, so a byte that is not part of a valid UTF-8
+// sequence is not a code point the language can carry; it becomes one U+FFFD per byte
+// (exactly the rule of encoding/json). Valid UTF-8 must come back byte for byte.
+func expectJS(s, _ string) string {
+	if !utf8.ValidString(s) {
 		return string([]rune(s))
 	}
 	return s
+}
+
+// isJSContext reports whether the context is a JavaScript or JSON string context, whose
+// rendered output must itself be valid UTF-8.
+func isJSContext(name string) bool {
+	return strings.HasPrefix(name, "js-") || strings.HasPrefix(name, "script-") || strings.HasPrefix(name, "json")
 }
 
 func expectHTML(s, which string) string {
@@ -252,15 +265,15 @@ var contexts = []context{
 	{"url-query-dq", "index.html", `<a href="/p?q={{ s }}">`, urlQuery('"'), same},
 	{"url-query-sq", "index.html", `<a href='/p?q={{ s }}'>`, urlQuery('\''), same},
 	{"url-query-unquoted", "index.html", `<a href=/p?q={{ s }}>`, urlQuery(0), same},
-	{"js-dq", "index.js", `var a = "{{ s }}";`, jsLit(`var a = `, `;`), same},
-	{"js-sq", "index.js", `var a = '{{ s }}';`, jsLit(`var a = `, `;`), same},
-	{"js-value", "index.js", `var a = {{ s }};`, jsLit(`var a = `, `;`), same},
-	{"script-dq", "index.html", `<script>var a = "{{ s }}";</script>`, inElement("script", 0, jsLit(`var a = `, `;`)), same},
-	{"script-sq", "index.html", `<script>var a = '{{ s }}';</script>`, inElement("script", 0, jsLit(`var a = `, `;`)), same},
-	{"script-value", "index.html", `<script>var a = {{ s }};</script>`, inElement("script", 0, jsLit(`var a = `, `;`)), same},
-	{"json-string", "index.json", `{"a": "{{ s }}"}`, jsonDoc, expectJSON},
-	{"json-value", "index.json", `{"a": {{ s }}}`, jsonDoc, expectJSON},
-	{"jsonld-string", "index.html", `<script type="application/ld+json">{"a": "{{ s }}"}</script>`, inElement("script", 1, jsonDoc), expectJSON},
+	{"js-dq", "index.js", `var a = "{{ s }}";`, jsLit(`var a = `, `;`), expectJS},
+	{"js-sq", "index.js", `var a = '{{ s }}';`, jsLit(`var a = `, `;`), expectJS},
+	{"js-value", "index.js", `var a = {{ s }};`, jsLit(`var a = `, `;`), expectJS},
+	{"script-dq", "index.html", `<script>var a = "{{ s }}";</script>`, inElement("script", 0, jsLit(`var a = `, `;`)), expectJS},
+	{"script-sq", "index.html", `<script>var a = '{{ s }}';</script>`, inElement("script", 0, jsLit(`var a = `, `;`)), expectJS},
+	{"script-value", "index.html", `<script>var a = {{ s }};</script>`, inElement("script", 0, jsLit(`var a = `, `;`)), expectJS},
+	{"json-string", "index.json", `{"a": "{{ s }}"}`, jsonDoc, expectJS},
+	{"json-value", "index.json", `{"a": {{ s }}}`, jsonDoc, expectJS},
+	{"jsonld-string", "index.html", `<script type="application/ld+json">{"a": "{{ s }}"}</script>`, inElement("script", 1, jsonDoc), expectJS},
 	{"css-dq", "index.css", `a { content: "{{ s }}"; }`, cssLit(`a { content: `, `; }`), expectCSS},
 	{"css-sq", "index.css", `a { content: '{{ s }}'; }`, cssLit(`a { content: `, `; }`), expectCSS},
 	{"css-value", "index.css", `a { content: {{ s }}; }`, cssLit(`a { content: `, `; }`), expectCSS},
@@ -270,8 +283,8 @@ var contexts = []context{
 	// escape-like text, so that an escape of the value must not merge with its neighbours)
 	{"html-text-embedded", "index.html", `<div>#x3c;{{ s }}amp;</div>`, embedded("#x3c;", "amp;", htmlText("div")), expectHTML},
 	{"attr-dq-embedded", "index.html", `<a title="34;{{ s }}#34;">`, embedded("34;", "#34;", htmlAttr('"')), expectHTML},
-	{"js-dq-embedded", "index.js", `var a = "u0041{{ s }}u0041";`, embedded("u0041", "u0041", jsLit(`var a = `, `;`)), same},
-	{"json-string-embedded", "index.json", `{"a": "u0041{{ s }}u0041"}`, embedded("u0041", "u0041", jsonDoc), expectJSON},
+	{"js-dq-embedded", "index.js", `var a = "u0041{{ s }}u0041";`, embedded("u0041", "u0041", jsLit(`var a = `, `;`)), expectJS},
+	{"json-string-embedded", "index.json", `{"a": "u0041{{ s }}u0041"}`, embedded("u0041", "u0041", jsonDoc), expectJS},
 	{"css-dq-embedded", "index.css", `a { content: "3c{{ s }}cafe"; }`, embedded("3c", "cafe", cssLit(`a { content: `, `; }`)), expectCSS},
 	{"css-sq-embedded", "index.css", `a { content: '3c{{ s }} 0A'; }`, embedded("3c", " 0A", cssLit(`a { content: `, `; }`)), expectCSS},
 	{"url-query-embedded", "index.html", `<a href="/p?q=41{{ s }}41">`, embedded("41", "41", urlQuery('"')), same},
@@ -343,6 +356,10 @@ func (st *state) check(s, class string) {
 			continue
 		}
 		out := st.buf.String()
+		if isJSContext(c.name) && !utf8.ValidString(out) {
+			st.viols = append(st.viols, fmt.Sprintf("context=%s template=%s value=%q rendered=%q: the rendered JavaScript/JSON text is not valid UTF-8", c.name, c.src, s, out))
+			continue
+		}
 		raw, decs, err := c.decode(out)
 		if err != nil {
 			st.viols = append(st.viols, fmt.Sprintf("context=%s template=%s value=%q rendered=%q: the value does not stay a decodable slot: %v", c.name, c.src, s, out, err))
